@@ -60,5 +60,11 @@ TEXT = {
   "note": "Trusted: Lean kernel; model of the writer plumbing; the unbuffered-prefix clause is checked by fault injection only.",
   "technique": "Lean 4 theorems on the buffering combinator of the executable model + fault-injection differential over the four entry points",
  },
+ "C09": {
+  "text": "Theorems in Lean 4 on the executable model: an if with conditions of known truth value runs exactly the first true branch, the else-branch if none, nothing otherwise, for any number of branches (if_first_true); ifequal/ifnotequal are complementary (ifequal_complement); lists iterate in order, reversed backwards, non-iterables have no items so empty runs (iter_in_order, iter_reversed, iter_nothing); sorted visits a permutation of the elements (sorted_is_permutation) in ascending numeric order for integers (sorted_ints_ascending). forloop fields are functions of (index, count, parent) by construction of the per-iteration record (after the fix: commit 998102e). Generated nestings to depth 4 of all listed tags over lists/strings/maps/nil, printing every forloop field incl. Parentloop, are compared with an independent reference interpreter of the generated tree and with the Lean model.",
+  "ref": "DESIGN.md §6 C09",
+  "note": "Trusted: Lean kernel; sort modelled as stable insertion sort; map order excluded; cycle/ifchanged semantics by correspondence and reference interpreter only.",
+  "technique": "Lean 4 theorems on the interpreter model + differential rendering against an independent reference interpreter",
+ },
 }
 PENDING = {}
